@@ -252,11 +252,15 @@ def _get_phases_from_header(header: List[str]) -> dict:
         phases["lattice_constants"].append(abcABG)
         phases["names"].append(phase_data[2])
         laue_id = int(phase_data[3])
-        phases["point_groups"].append(laue_ids[laue_id - 1])
         sg = int(phase_data[4])
         if sg == 0:
             sg = None
         phases["space_groups"].append(sg)
+        # The space group, if given, determines the point group. Passing
+        # the Laue class as well makes Phase discard a non-centrosymmetric
+        # space group, since its point group is not the Laue group.
+        point_group = laue_ids[laue_id - 1] if sg is None else None
+        phases["point_groups"].append(point_group)
 
     return phases
 
